@@ -14,7 +14,8 @@ CONSTANTS
   MaxRank,   \* assigned tensors have rank 0..MaxRank
   Strict0, Live0,
   OpKinds,   \* "recon", "assign", "probe" (compatible(shape)), "toggle" (strict / live setters)
-  MaxDepth
+  MaxDepth,  \* number of operations explored from the initial state (the invariants look one further)
+  Part, NParts   \* the invariant work is shared by NParts TLC runs: run Part decides the states of its share
 
 VARIABLE st
 vars == <<st>>
@@ -33,12 +34,21 @@ Ops(s) ==
                                        \cup {[a |-> "set_live", b |-> b] : b \in BOOLEAN} ELSE {})
 
 Init == st = Init0
-\* at most MaxDepth operations from the initial state (the initial state has level 1).  The
-\* bound sits in the action, not in a CONSTRAINT: TLC evaluates invariants also on the
-\* states a constraint discards, once per generated duplicate.
+\* At most MaxDepth operations from the initial state (an initial state has level 1;
+\* TLCGet("level") is only deterministic with ONE worker).  The bound sits in the action,
+\* not in a CONSTRAINT: TLC evaluates invariants also on the states a constraint discards,
+\* once per generated duplicate.
 Next == /\ TLCGet("level") <= MaxDepth
         /\ \E o \in Ops(st) : \E x \in MApply(st, o) : st' = x.st
 Spec == Init /\ [][Next]_vars
+
+\* Sharing one bounded exploration between several single-worker TLC runs: every run
+\* explores the same graph (cheap) and evaluates the look-ahead invariants (the bulk of the
+\* work) only on the states of its share; the shares partition the state space.
+RECURSIVE SumW(_, _)
+SumW(q, i) == IF i > Len(q) THEN 0 ELSE i * (q[i] + 1) + SumW(q, i + 1)
+StHash(s) == SumW(s.cons, 1) + 7 * SumW(s.shape, 1) + SumW(s.data, 1)
+Mine == StHash(st) % NParts = Part
 
 (***************************************************************************)
 (* Properties                                                              *)
@@ -59,15 +69,15 @@ ValidImpliesSatisfied == ValidImpliesSatisfiedAt(st)
 SatisfiedImpliesValid == SatisfiedImpliesValidAt(st)
 \* ... the same for every probe tensor the predicate can be asked about
 CompatibleImpliesSatisfies ==
-  \A sh \in Shapes : MCompatible(sh, st.cons, st.strict) => Satisfies(sh, st.cons, st.strict)
+  Mine => \A sh \in Shapes : MCompatible(sh, st.cons, st.strict) => Satisfies(sh, st.cons, st.strict)
 \* in non-strict mode the predicate is exactly the meaning
 NonStrictExact ==
-  ~st.strict => \A sh \in Shapes : MCompatible(sh, st.cons, st.strict) <=> Satisfies(sh, st.cons, st.strict)
+  (Mine /\ ~st.strict) => \A sh \in Shapes : MCompatible(sh, st.cons, st.strict) <=> Satisfies(sh, st.cons, st.strict)
 \* python's shape[d] / hypoth[d] never raise
-IndexSafe == \A sh \in Shapes : IndexSafeAt(st, sh)
+IndexSafe == Mine => \A sh \in Shapes : IndexSafeAt(st, sh)
 
 \* every (operation, outcome) pair at the current state
-Each(P(_, _, _)) == \A o \in Ops(st) : \A x \in MApply(st, o) : P(st, o, x)
+Each(P(_, _, _)) == Mine => \A o \in Ops(st) : \A x \in MApply(st, o) : P(st, o, x)
 \* C13: adding an incompatible constraint is refused without side effects
 AddRefusedNoSideEffects == Each(AddRefusedX)
 \* C13: removing a constraint never alters data
